@@ -57,7 +57,7 @@ def run(tier, seed, work, replay):
         evs, devs = execute(cpath, "all")
     except E.RuntimeCrash as c:
         # the runtime aborted the daemon code (unsynchronised map access) during the concurrent injections
-        fr = [(os.path.basename(f), ln) for f, ln in c.frames if f.startswith("cmd/keymasterd/")]
+        fr = [(f, ln) for f, ln in c.frames]
         if not fr:
             raise E.Inconclusive("the harness crashed (%s) without a keymaster frame:\n%s" % (c.kind, c.dump))
         crash = sorted(set(fr))[:6]
@@ -72,7 +72,7 @@ def run(tier, seed, work, replay):
     for f in glob.glob(rlog + ".*"):
         for rep in open(f).read().split("=================="):
             if "DATA RACE" in rep:
-                fr = [x for x in re.findall(re.escape(E.REPO) + r"/cmd/keymasterd/([A-Za-z0-9_]+\.go):(\d+)", rep) if not x[0].startswith("zz_verif")]
+                fr = [x for x in re.findall(re.escape(E.REPO) + r"/((?:cmd|lib|keymasterd|eventmon)/[A-Za-z0-9_/]+\.go):(\d+)", rep) if "zz_verif" not in x[0]]
                 if fr:
                     races.append(sorted(set(fr))[:6])
     cov["race_reports_with_keymaster_frames"] = len(races)
